@@ -33,6 +33,10 @@ def compositions(maxlen):
 
 
 def bounds(tier):
+    return _bounds(tier) + "; observed: all library observers subscribed, shapes <=3 ops and (2,2) M<=2"
+
+
+def _bounds(tier):
     if tier == "quick":
         return ("no filter (d>=0): ordered shapes <=3 jobs <=4 ops, all assignments M<=2, flexible M<=2 on <=3 ops; single filters (d>=1): "
                 "same non-flexible family and flexible <=3 ops; ordered pairs of filters (d>=1): shapes <=3 ops and (2,2), M<=2; "
